@@ -143,6 +143,8 @@ func main() {
 	}
 	eskip(fs)
 	eoverlap()
+	eabort()
+	res.Info["E-abort"] = "2 engines x 3 profiles, one backend: rounds of six clients that take the first part of a 4 MiB answer sent without a pause and go away (close / reset alternating), then three ordinary requests (JSON with a length, SSE chunked, JSON) each of which must receive its own attempt's status, marker header and body whole; deterministic pools (what an aborted exchange hands back is what the next draws); 3 rounds quick, 8 thorough"
 	res.Info["E-overlap"] = "two clients at the same time over endpoints [P, Q] (priority), per-request outcome in {ok, refused by P, delivery begun by P then reset}, all 9 pairs x 2 engines x 2 profiles; gates at every backend arrival and between the delivered part and the cut; every order of the blocks"
 	res.Info["E-skip"] = "olla engine, 3 endpoints: a five-request prefix opens A's breaker, A is readmitted, then every fault on B with C working - the request's history contains a skipped candidate"
 	res.Info["grid"] = map[string]any{"faults": names(fs), "engines": engines, "profiles": profiles, "balancers": balancers,
